@@ -4,8 +4,6 @@ import importlib, json, sys, pathlib
 sys.path.insert(0, str(pathlib.Path(__file__).parent))
 sys.dont_write_bytecode = True
 NA = [
- {"property_id": "C35", "reason": "Semantic preservation of CSE needs an evaluator for Hail IR; the only one is the Scala engine (not buildable offline) and the expression API that builds the DAGs cannot be imported (dtype registrations need parsimonious)."},
- {"property_id": "C36", "reason": "Quantifies over programs written with the expression/Table/MatrixTable API, which cannot be imported offline (import hail executes dtype() registrations that need parsimonious); no state machine to check."},
  {"property_id": "C37", "reason": "Floating-point accuracy of Scala statistics code that cannot be built or run here; numeric accuracy is outside what TLC decides."},
 ]
 checks = []
